@@ -21,6 +21,21 @@ whose P->T direction is *held*: the crossing order is forced, not hoped for.
      when M is released
   5. P sends a sentinel GLOBAL_REQUEST(want_reply); the run ends with its reply or T's death
 
+bulk stream (dimension `bulk`, any mode): a 5th channel whose receive window on the tested side is w = 32-64 KiB
+(`open_session(window_size=)` / `Transport(default_window_size=)`); the puppet is an eager, window-respecting sender: when
+the exchange starts it has `fill` percent of that window in flight behind M (16-512 CHANNEL_DATA packets held on the
+link; in mode "threshold" that is a multiple of the lowered REKEY_PACKETS and, with `rb`, of a lowered REKEY_BYTES,
+while the overflow allowances keep their defaults), and after the exchange it goes on for `more` quarter windows,
+writing whenever initial window + WINDOW_ADJUSTs seen - bytes written > 0. The application reads the stream with recv
+calls of `chunk` bytes: operation "read" = started with the other queued operations (after the tested side's KEXINIT /
+its NEWKEYS), i.e. reads cross the window-adjust threshold while the send gate is closed and the adjustment is a queued
+user message; otherwise after the exchange. The harness waits (pacing) until the reader has taken what is buffered or
+sits in a call before it lets the exchange finish. Oracle: session-died as above (the in-flight volume is far below the
+default overflow allowance); op-lost: the reader receives every byte of the stream, i.e. "the queued traffic is
+delivered afterwards" and the transfer continues - a sender left without window for 12 s although the application has
+read everything is a violation (component `op:read` / `bulk-stream`); foreign-type-in-kex covers a WINDOW_ADJUST written
+inside the exchange.
+
 Oracle (on the Tap-decoded, ordered log of everything T sent; `c10.Wire` gives the global order):
   foreign-type-in-kex  between T's KEXINIT (20) and its next NEWKEYS (21) only types 1..49
   session-died         the exchange completes, T and P are active afterwards, sentinel answered
@@ -79,6 +94,10 @@ RULE = (
     "explicit|threshold|crossing|peer, 1-3 messages, 0-2 queued user operations (send, stream, global request wait 0|1, exec, channel "
     "open, port forward request, renegotiate_keys) started after the tested side's KEXINIT or after its NEWKEYS (peer's NEWKEYS held), keepalive on/off, hold time, release portions, fragmentation plan (0-10 items: max recv size 1-64 | GAP); non-trivial = every M released to the tested side strictly between its KEXINIT and "
     "its NEWKEYS in the global wire order (or keepalive due while the exchange was held >= 0.3 s); distinct by the case dict; "
+    "bulk stream dimension (enumerated: role x 4 initiators x reader during the exchange, reader at the last step, no reader x lowered packet / byte thresholds; "
+    "and drawn): tested side's receive window 32|48|64 KiB x 25|50|100 % of it in flight behind the KEXINIT in packets of 32-4096 bytes (16-512 packets, a multiple of the lowered "
+    "REKEY_PACKETS 30-60 / REKEY_BYTES 8|16 KiB with default overflow allowances) x application recv size 64-65536 started during | after the exchange x 1-6 quarter windows sent "
+    "afterwards by a window-respecting sender; "
     "family storm: role x initiator explicit|peer|alternate|threshold x 2-16 concurrent sender threads streaming on their own channels "
     "while 1-3 (thorough: up to 40) consecutive exchanges start x senders stalled 1-4 ms at the packetizer entry every 1-3 sends | "
     "free-running x interpreter switch interval default|5|50|500 us x record size 8|64|200 x 10-80 records per sender and round (<= 6000 per session); "
@@ -114,7 +133,7 @@ M_KINDS = [
     "channel-success",
     "channel-failure",
 ]
-OP_KINDS = ["send", "stream", "global", "exec", "open", "fwd", "globalw", "rekey"]
+OP_KINDS = ["send", "stream", "global", "exec", "open", "fwd", "globalw", "rekey", "read"]
 OP_ATS = ["kexinit", "newkeys"]  # when the queued operations are started: right after the tested side's KEXINIT / its NEWKEYS
 WAITING_GLOBALS = ("fwd", "globalw")  # ops that wait for the peer's REQUEST_SUCCESS / FAILURE
 PENDING_OPEN = ("open-confirm", "open-failure")  # M kinds answering an open the tested side has outstanding
@@ -227,11 +246,16 @@ def execute(case):
 
     role, mode = case["role"], case["mode"]
     ms, ops = list(case["ms"]), list(case["ops"])
+    bulk = case.get("bulk") or None
     link = net.Link()
     wire = c10.Wire(link)
     tkw = {}
     if mode == "threshold":
-        tkw = dict(packetizer_class=c10.small_packetizer(Packetizer, case["rp"], Packetizer.REKEY_BYTES, Packetizer.REKEY_PACKETS_OVERFLOW_MAX, Packetizer.REKEY_BYTES_OVERFLOW_MAX))
+        # lowered thresholds only: the overflow allowances keep their defaults (2**29), so whatever the peer has in
+        # flight when the tested side asks for new keys stays far below them
+        tkw = dict(packetizer_class=c10.small_packetizer(Packetizer, case["rp"], case.get("rb") or Packetizer.REKEY_BYTES, Packetizer.REKEY_PACKETS_OVERFLOW_MAX, Packetizer.REKEY_BYTES_OVERFLOW_MAX))
+    if bulk and role == "server":
+        tkw["default_window_size"] = bulk["w"]
     policy = {
         "check_auth_password": peers.AUTH_SUCCESSFUL,
         "check_global_request": bool(case.get("greply", False)),
@@ -279,6 +303,13 @@ def execute(case):
             if sc is None:
                 raise core.HarnessError("no channel accepted")
             chans_s.append(sc)
+        if bulk:
+            # 5th channel for the bulk stream P->T; the tested side's receive window is bulk["w"]
+            chans_c.append(tc.open_session(window_size=bulk["w"], timeout=WAIT) if role == "client" else tc.open_session(timeout=WAIT))
+            sc = ts.accept(WAIT)
+            if sc is None:
+                raise core.HarnessError("no channel accepted")
+            chans_s.append(sc)
         chT = chans_c if role == "client" else chans_s
         chP = chans_s if role == "client" else chans_c
         for ch in chT:
@@ -291,7 +322,7 @@ def execute(case):
             raise core.HarnessError("link not quiescent after setup")
 
         def dec_out():
-            return wire.decode(tc, ts)[out_d.name]
+            return wire.decode(tc, ts, only=out_d.name)[out_d.name]
 
         def n_type_out(ty):
             return sum(1 for r in dec_out() if r[3] == ty)
@@ -338,7 +369,27 @@ def execute(case):
         for i, kind in enumerate(ms):
             m_index.append(len(in_d.sent))
             P.send_raw_seq(build_m(kind, i, t_ids[i], role))
-        if not in_d.wait_pending(len(ms), WAIT):
+        # bulk stream: an eager sender has filled `fill` percent of the tested side's receive window when the exchange
+        # starts (all of it in flight behind M), and goes on as fast as the window allows afterwards
+        bst = dict(sent=0, got=0, pk=0, total=0, adj=0, cont_at=None)
+        if bulk:
+            b_w, b_size = bulk["w"], bulk["size"]
+            b_fly = b_w * bulk["fill"] // 100
+            bst["total"] = b_fly + b_w * bulk["more"] // 4
+            b_tid, b_pid = chT[4].get_id(), chP[4].get_id()
+
+            def bulk_send(n):
+                while n > 0:
+                    k = min(b_size, n)
+                    P.send_raw_seq(peers.m_channel_data(b_tid, c10.pattern(40, bst["sent"], k)))
+                    bst["sent"] += k
+                    bst["pk"] += 1
+                    n -= k
+
+            bulk_send(b_fly)
+        n_held = len(ms) + bst["pk"]
+        info["bulk_packets_in_flight"] = bst["pk"]
+        if not in_d.wait_pending(n_held, WAIT):
             raise core.HarnessError("M not pending")
 
         # ---- 3. trigger
@@ -354,7 +405,7 @@ def execute(case):
             bg("op:stream", op_stream)  # already running when the exchange starts (race coverage)
         if mode in ("crossing", "peer"):
             bg("P-renegotiate", P.renegotiate_keys)
-            if not in_d.wait_pending(len(ms) + 1, WAIT):
+            if not in_d.wait_pending(n_held + 1, WAIT):
                 raise core.HarnessError("puppet KEXINIT not pending")
         if mode in ("explicit", "crossing"):
             bg("T-renegotiate", T.renegotiate_keys)
@@ -378,7 +429,7 @@ def execute(case):
             # M and the puppet's KEXINIT reach T first; T's KEXINIT is its answer
             wire.mark("release-M")
             in_d.set_frag(case.get("frag"))
-            in_d.release(len(ms) + 1)
+            in_d.release(n_held + 1)
         end = time.time() + WAIT
         while time.time() < end and T.is_active() and n_type_out(20) <= kx0:
             time.sleep(0.005)
@@ -393,7 +444,42 @@ def execute(case):
                 raise OpFailed("global_request(wait=True) returned None (= denied) although the peer answers REQUEST_SUCCESS")
             return True
 
+        def op_read():
+            # the application reads the bulk stream (recv calls of bulk["chunk"] bytes) until all of it has arrived
+            ch = chT[4]
+            buf = []
+            n = 0
+            total = bst["total"]
+            try:
+                while n < total:
+                    x = ch.recv(min(bulk["chunk"], total - n))
+                    if not x:
+                        break
+                    buf.append(x)
+                    n += len(x)
+                    bst["got"] = n
+            except _socket.timeout:
+                pass
+            if b"".join(buf) != c10.pattern(40, 0, total):
+                raise OpFailed("bulk stream: reader got %d of %d bytes (%s) and then nothing for %.0f s" % (n, total, "a prefix" if c10.pattern(40, 0, total).startswith(b"".join(buf)) else "CONTENT DIFFERS", WAIT))
+            return n
+
+        def reader_settled(limit=1.0):
+            """pacing: the reader has taken what is buffered (or sits in a call that does not return)"""
+            end = time.time() + limit
+            last, t_last = -1, time.time()
+            while time.time() < end and T.is_active():
+                if bst["got"] >= bst["sent"]:
+                    return
+                if bst["got"] != last:
+                    last, t_last = bst["got"], time.time()
+                elif in_d.idle() and time.time() - t_last > 0.04:
+                    return
+                time.sleep(0.003)
+
         def start_ops():
+            if "read" in ops and bulk:
+                bg("op:read", op_read)
             if "send" in ops:
                 bg("op:send", lambda: chT[3].send(c10.pattern(22, 0, 33)))
             if "global" in ops:
@@ -430,7 +516,9 @@ def execute(case):
         if mode != "peer":
             wire.mark("release-M")
             in_d.set_frag(case.get("frag"))
-            in_d.release(len(ms))
+            in_d.release(n_held)
+        if bulk and "read" in ops and op_at == "kexinit":
+            reader_settled()
         if op_at == "newkeys":
             # last step of the exchange: the peer's packets are let through one at a time until the tested side's
             # NEWKEYS is on the wire; the peer's NEWKEYS stays held while the user operations are started
@@ -446,6 +534,8 @@ def execute(case):
             info["late_window"] = bool(n_type_out(21) > nk0 and in_d.n_pending() >= 1 and not T.clear_to_send.is_set())
             start_ops()
             time.sleep(max(case["hold_ms"], 20) / 1000.0)
+            if bulk and "read" in ops:
+                reader_settled()
         for n in case["sched"]:
             end = time.time() + 0.05
             while time.time() < end and not in_d.idle():
@@ -497,6 +587,24 @@ def execute(case):
             if opk in ops and T.is_active():
                 if P.wait_log(lambda lg: any(e[1] == 80 and e[2].startswith(R.string(rname)) for e in lg), WAIT):
                     P.send_raw_seq(peers.m_request_success())
+        if bulk and T.is_active() and P.is_active():
+            # the transfer continues: the sender writes whenever the window the tested side has granted allows it
+            bst["cont_at"] = len(in_d.sent)
+            if "read" not in ops:
+                bg("bulk:read", op_read)
+            t_prog = time.time()
+            try:
+                while bst["sent"] < bst["total"] and T.is_active() and time.time() - t_prog < WAIT:
+                    bst["adj"] = sum(int.from_bytes(e[2][4:8], "big") for e in list(P.log) if e[1] == 93 and e[2][:4] == R.u32(b_pid))
+                    credit = b_w + bst["adj"] - bst["sent"]
+                    if credit > 0:
+                        bulk_send(min(credit, bst["total"] - bst["sent"]))
+                        t_prog = time.time()
+                    else:
+                        time.sleep(0.002)
+            except (EOFError, OSError):
+                pass
+            info["bulk"] = dict(sent=bst["sent"], total=bst["total"], window=b_w, adjusted=bst["adj"])
         for th in threads:
             th.join(WAIT)
         hung = [th.name for th in threads if th.is_alive()]
@@ -554,7 +662,7 @@ def execute(case):
     window = [r for r in later if g_nk is None or r[0] < g_nk]
     after = [r for r in later if g_nk is not None and r[0] > g_nk]
     g_rel = next((g for g, e in enumerate(ev) if e == ("mark", "release-M")), None)
-    nontrivial = bool(ms) and g_kx is not None and g_rel is not None and g_kx < g_rel and (g_nk is None or g_rel < g_nk)
+    nontrivial = bool(ms or bulk) and g_kx is not None and g_rel is not None and g_kx < g_rel and (g_nk is None or g_rel < g_nk)
     if case["ka"] and info.get("timeouts_in_hold", 0) >= 1:
         nontrivial = True
     info["window_types"] = [r[3] for r in window]
@@ -603,6 +711,17 @@ def execute(case):
         for opk, rname in (("fwd", b"tcpip-forward"), ("globalw", b"opw@verif")):
             if opk in ops and not any(r[3] == 80 and r[4].startswith(R.string(rname)) for r in after):
                 lost.append("op:%s request not on the wire after NEWKEYS" % opk)
+        if bulk:
+            res = opres.get("op:read" if "read" in ops else "bulk:read")
+            if res is None or res[0] != "ok":
+                bi = info.get("bulk", {})
+                lost.append(
+                    "bulk stream P->T did not continue after the exchange: %r; sender wrote %s of %s bytes and has no window left (window %s + %s bytes of WINDOW_ADJUST seen)"
+                    % (res, bi.get("sent"), bi.get("total"), bi.get("window"), bi.get("adjusted"))
+                )
+            # evidence: a WINDOW_ADJUST of the bulk channel that was written after NEWKEYS and before the sender went on
+            g_cont = rows_in[bst["cont_at"] - 1][0] if bst["cont_at"] is not None and bst["cont_at"] - 1 < len(rows_in) else None
+            info["adjust_queued_behind_exchange"] = any(r[3] == 93 and r[4][:4] == R.u32(p_ids[4]) and (g_cont is None or r[0] < g_cont) for r in after)
         if hung:
             lost.append("threads still blocked: %r" % hung)
         if lost:
@@ -972,19 +1091,25 @@ def components(case):
     out = [("m", k) for k in case["ms"]] + [("op", k) for k in case["ops"]]
     if case["ka"]:
         out.append(("ka", "keepalive"))
+    if case.get("bulk"):
+        out.append(("bulk", "bulk-stream"))
     return out
 
 
 def comp_name(c):
-    return {"m": c[1], "op": "op:" + c[1], "ka": "keepalive"}[c[0]]
+    return {"m": c[1], "op": "op:" + c[1], "ka": "keepalive", "bulk": "bulk-stream"}[c[0]]
 
 
 def single(case, comp):
-    base = dict(case, ms=[], ops=[], ka=False, sched=[1])
+    base = dict(case, ms=[], ops=[], ka=False, sched=[1], bulk=None)
     if comp[0] == "m":
         base["ms"] = [comp[1]]
     elif comp[0] == "op":
         base["ops"] = [comp[1]]
+        if comp[1] == "read":
+            base["bulk"] = case.get("bulk")  # the reader reads the bulk stream
+    elif comp[0] == "bulk":
+        base["bulk"] = case.get("bulk")
     else:
         base["ka"] = True
         base["hold_ms"] = max(case["hold_ms"], 350)
@@ -1002,6 +1127,19 @@ def normalise(case):
     if any(k in ("request-success", "request-failure") for k in case["ms"]):
         # an unsolicited reply in flight would be taken - correctly - as the answer to the queued request
         ops = [o for o in ops if o not in WAITING_GLOBALS]
+    b = case.get("bulk") or None
+    if b:
+        # bulk stream P->T: receive window of the tested side, packet size, percentage of the window in flight when the
+        # exchange starts, size of the application's recv calls, quarter windows sent after the exchange
+        w = min(max(int(b.get("w", 32768)), 32768), 131072)
+        fill = min(max(int(b.get("fill", 100)), 1), 100)
+        more = min(max(int(b.get("more", 4)), 1), 8)
+        total = w * fill // 100 + w * more // 4
+        size = min(max(int(b.get("size", 128)), 16, -(-total // 900)), 8192)
+        b = dict(w=w, size=size, fill=fill, chunk=min(max(int(b.get("chunk", 4096)), 1), w), more=more)
+    case["bulk"] = b
+    if not b:
+        ops = [o for o in ops if o != "read"]
     case["ops"] = sorted(set(ops))
     case["op_at"] = case.get("op_at", "kexinit") if [o for o in case["ops"] if o != "stream"] else "kexinit"
     case["ms"] = list(case["ms"])[:3]
@@ -1015,6 +1153,9 @@ def normalise(case):
         case["hold_ms"] = max(case["hold_ms"], 350)
     if case["mode"] != "threshold":
         case["rp"] = 0
+        case["rb"] = 0
+    else:
+        case["rb"] = int(case.get("rb") or 0)
     return case
 
 
@@ -1091,6 +1232,19 @@ class Runner:
                     cls += ["frag", "frag:gaps-taken:%d" % min(gaps, 3), "frag:mode:" + case["mode"]]
                     if case["frag"][0] is not None and case["frag"][0] < 16 and None in case["frag"][1:3]:
                         cls.append("frag:gap-in-first-block")
+                if case.get("bulk"):
+                    b = case["bulk"]
+                    n_fl = r["info"].get("bulk_packets_in_flight", 0)
+                    cls += ["bulk", "bulk:mode:" + case["mode"], "bulk:window:%d" % b["w"], "bulk:window-filled:%d%%" % b["fill"], "bulk:packets-in-flight:2^%d" % max(n_fl, 1).bit_length()]
+                    if case["mode"] == "threshold":
+                        ratio = max(n_fl // max(case["rp"], 1), (b["w"] * b["fill"] // 100) // case["rb"] if case.get("rb") else 0)
+                        cls.append("bulk:threshold:in-flight-over-lowered-threshold:x2^%d" % max(ratio, 0).bit_length())
+                        cls.append("bulk:threshold:bytes-%s" % ("lowered" if case.get("rb") else "default"))
+                    if "read" in case["ops"]:
+                        cls.append("bulk:application-reads-during-exchange:ops-at-" + case.get("op_at", "kexinit"))
+                        if r["info"].get("adjust_queued_behind_exchange"):
+                            cls.append("bulk:window-adjust-due-during-exchange-sent-after-newkeys")
+                            cls.append("bulk:window-adjust-due-during-exchange:filled-%d%%" % b["fill"])
                 cls.append("nontrivial" if r["nontrivial"] else "trivial")
                 ctx.case(case, r["nontrivial"], cls)
             if not r["viol"]:
@@ -1124,8 +1278,12 @@ class Runner:
                     uniq.append((c, s))
             rs = self.map([s for _, s in uniq])
             any_single = False
+            # the reader's single keeps the bulk stream it reads: what the stream alone shows is not the reader's
+            bulk_alone = set(v[0] for (c, s), r1 in zip(uniq, rs) if c[0] == "bulk" for v in r1["viol"])
             for (c, s), r1 in zip(uniq, rs):
                 ctx.count("isolation-rerun")
+                if c == ("op", "read") and bulk_alone:
+                    r1 = dict(r1, viol=[v for v in r1["viol"] if v[0] not in bulk_alone])
                 if r1["viol"]:
                     any_single = True
                     self.report(s, r1, comp_name(c))
@@ -1133,10 +1291,11 @@ class Runner:
                 self.report(case, r, "combo:" + "+".join(sorted(set(comp_name(c) for c in comps))))
 
 
-def base_case(role, mode="explicit", ms=(), ops=(), ka=False, hold_ms=0, sched=(1, 1), greply=False, rp=0, frag=(), op_at="kexinit"):
-    return normalise(dict(role=role, mode=mode, ms=list(ms), ops=list(ops), ka=ka, hold_ms=hold_ms, sched=list(sched), greply=greply, rp=rp, frag=list(frag), op_at=op_at))
+def base_case(role, mode="explicit", ms=(), ops=(), ka=False, hold_ms=0, sched=(1, 1), greply=False, rp=0, frag=(), op_at="kexinit", bulk=None, rb=0):
+    return normalise(dict(role=role, mode=mode, ms=list(ms), ops=list(ops), ka=ka, hold_ms=hold_ms, sched=list(sched), greply=greply, rp=rp, frag=list(frag), op_at=op_at, bulk=bulk, rb=rb))
 
 
+ENUM_BULK = dict(w=32768, size=128, fill=100, chunk=4096, more=4)
 G = net.GAP
 # recv fragmentation plans of the enumerated part: gap inside the first cipher block (8/16 bytes), inside the
 # length field, inside the body, several gaps, no gap
@@ -1145,11 +1304,29 @@ FRAG_MS = ["data", "chanreq:env:1", "close", "global:1", "eof", "open:accepted",
 frag_items = st.one_of(st.integers(1, 15), st.integers(1, 64), st.just(G))
 
 
+bulks = st.one_of(
+    st.none(),
+    st.none().map(lambda v: v),
+    st.fixed_dictionaries(
+        dict(
+            w=st.sampled_from([32768, 32768, 49152, 65536]),
+            size=st.sampled_from([32, 64, 128, 128, 512, 1024, 4096]),
+            fill=st.sampled_from([25, 50, 100, 100, 100]),
+            chunk=st.sampled_from([64, 1024, 4096, 4096, 16384, 65536]),
+            more=st.sampled_from([1, 2, 4, 6]),
+        )
+    ),
+)
+
+
 @st.composite
 def cases(draw):
     mode = draw(st.sampled_from(["explicit", "explicit", "threshold", "crossing", "crossing", "peer"]))
     ms = draw(st.lists(st.sampled_from(M_KINDS), min_size=1, max_size=3))
     ops = draw(st.lists(st.sampled_from(OP_KINDS), min_size=0, max_size=2, unique=True))
+    bulk = draw(bulks)
+    if bulk and draw(st.sampled_from([0, 1, 1])):
+        ops = ops + ["read"]  # the application reads the stream while the exchange runs
     return normalise(
         dict(
             role=draw(st.sampled_from(["client", "server"])),
@@ -1163,6 +1340,8 @@ def cases(draw):
             rp=draw(st.integers(30, 60)),
             frag=draw(st.one_of(st.just([]), st.lists(frag_items, min_size=1, max_size=10))),
             op_at=draw(st.sampled_from(["kexinit", "kexinit", "newkeys"])),
+            bulk=bulk,
+            rb=draw(st.sampled_from([0, 0, 8192, 16384])),
         )
     )
 
@@ -1196,7 +1375,7 @@ def run(ctx):
                 enum.append(base_case(role, ms=[k], greply=(role == "server")))
             enum.append(base_case(role, ka=True, hold_ms=350))
             for o in OP_KINDS:
-                if not (o == "exec" and role == "server"):
+                if not (o == "exec" and role == "server") and o != "read":
                     enum.append(base_case(role, ops=[o], ms=["window-adjust"]))
             enum.append(base_case(role, mode="threshold", ms=["data"], rp=40))
             enum.append(base_case(role, mode="crossing", ms=["global:0"]))
@@ -1219,6 +1398,16 @@ def run(ctx):
             # threshold-initiated exchange read through a fragmenting link with idle gaps
             for j, plan in enumerate(FRAG_PLANS):
                 enum.append(base_case(role, mode="threshold", ms=[FRAG_MS[(j + (role == "server")) % len(FRAG_MS)]], rp=40, frag=plan))
+            # bulk stream towards the tested side: an eager sender has filled the receive window when the exchange starts
+            # (hundreds of packets in flight behind the tested side's KEXINIT, also relative to lowered thresholds);
+            # the application reads during the exchange (window adjustments fall due while the gate is closed) or
+            # afterwards; the transfer must go on
+            for m_ in MODES:
+                enum.append(base_case(role, mode=m_, ms=["data"], ops=["read"], hold_ms=20, rp=40, bulk=ENUM_BULK))
+            enum.append(base_case(role, ms=["window-adjust"], ops=["read"], hold_ms=20, bulk=dict(ENUM_BULK, chunk=32768), op_at="newkeys"))
+            enum.append(base_case(role, mode="crossing", ms=["close"], ops=["read"], bulk=dict(ENUM_BULK, fill=50, chunk=1024, size=512, more=6)))
+            enum.append(base_case(role, mode="threshold", ms=["eof"], rp=40, bulk=dict(ENUM_BULK, size=64)))
+            enum.append(base_case(role, mode="threshold", ms=["data"], rp=60, rb=8192, bulk=dict(ENUM_BULK, w=65536, size=1024)))
         mine = [c for i, c in enumerate(enum) if i % ctx.nworkers == ctx.worker]
         mine = [c for c in (admit(c, keep_without_op=False) for c in mine) if c is not None]
         for i in range(0, len(mine), 2 * par):
